@@ -143,12 +143,16 @@ impl Header {
 
 
     pub fn get_header_list(request: &Request) -> Vec<Header> {
+        #[cfg(rws_verif)]
+        crate::verif_hooks::point("header.get_header_list.enter");
         let mut header_list : Vec<Header>;
         let mut vary_value : Vec<String>;
 
         let cors_vary = Cors::get_vary_header_value();
         vary_value = vec![cors_vary];
         let cors_header_list: Vec<Header> = Cors::get_headers(&request);
+        #[cfg(rws_verif)]
+        crate::verif_hooks::point("header.get_header_list.after_cors");
         header_list = cors_header_list;
 
         let client_hint_header = ClientHint::get_accept_client_hints_header();
